@@ -69,6 +69,25 @@ func HasPrefix(prefixes ...string) func(o *core.Obligation) bool {
 // as "not configured".
 
 func TargetDBSentinel(c *core.Ctx, rule string, pkgs ...string) {
+	sentinelMinusOne(c, rule, func(info *types.Info, e ast.Expr) bool {
+		return pat.Expr("conf.Options.TargetDB").Match(info, e, nil) != nil
+	}, "no comparison of conf.Options.TargetDB with a constant found",
+		"the sentinel for 'no fixed target database' is -1; this test treats target.db = 0 (a legal fixed target) differently from the other databases, so with target.db = 0 the source's SELECT n is followed and data lands in database n", pkgs...)
+}
+
+// SlotBoundarySentinel (C15): "this source is not one shard of a cluster" is
+// `SlotLeftBoundary == -1`. Slot 0 is a legal left boundary (the first shard),
+// so a test like `> 0` leaves that shard with the default checkpoint key, which
+// does not hash into its range.
+func SlotBoundarySentinel(c *core.Ctx, rule string, pkgs ...string) {
+	sentinelMinusOne(c, rule, func(info *types.Info, e ast.Expr) bool {
+		sel, ok := ast.Unparen(e).(*ast.SelectorExpr)
+		return ok && sel.Sel.Name == "SlotLeftBoundary" && core.NamedTypeName(info.TypeOf(sel.X)) == "SyncNode"
+	}, "no comparison of SyncNode.SlotLeftBoundary with a constant found",
+		"the sentinel for 'not a cluster shard' is -1; this test treats the shard whose range starts at slot 0 like a standalone source, so its checkpoint key is not chosen inside its slot range", pkgs...)
+}
+
+func sentinelMinusOne(c *core.Ctx, rule string, isSubject func(*types.Info, ast.Expr) bool, none, why string, pkgs ...string) {
 	n := 0
 	for _, pp := range pkgs {
 		pk := c.Pkg(pp)
@@ -90,7 +109,7 @@ func TargetDBSentinel(c *core.Ctx, rule string, pkgs ...string) {
 					return true
 				}
 				for _, p := range [][2]ast.Expr{{be.X, be.Y}, {be.Y, be.X}} {
-					if pat.Expr("conf.Options.TargetDB").Match(info, p[0], nil) == nil {
+					if !isSubject(info, p[0]) {
 						continue
 					}
 					v, isC := core.IntConst(info, p[1])
@@ -110,14 +129,14 @@ func TargetDBSentinel(c *core.Ctx, rule string, pkgs ...string) {
 						ok = true
 					}
 					c.Check(rule, fmt.Sprintf("%s.%s", strings.TrimPrefix(pp, "redis-shake/"), fname), be.Pos(), ok,
-						fmt.Sprintf("`%s`: the sentinel for 'no fixed target database' is -1; this test treats target.db = 0 (a legal fixed target) differently from the other databases, so with target.db = 0 the source's SELECT n is followed and data lands in database n", c.Src(be)))
+						fmt.Sprintf("`%s`: %s", c.Src(be), why))
 				}
 				return true
 			})
 		}
 	}
 	if n == 0 {
-		c.Undecidedf(rule, "sites", token.NoPos, "no comparison of conf.Options.TargetDB with a constant found")
+		c.Undecidedf(rule, "sites", token.NoPos, "%s", none)
 	}
 }
 
@@ -939,13 +958,25 @@ func FreshSlaves(c *core.Ctx, rule string) {
 				continue
 			}
 			g := cfgq.Of(c.Program, fn)
-			// copies of the supervisor's topology in this function
-			var copies []pat.Binds
-			for _, cp := range pat.Stmt("_new = _s.slot").FindAll(info, fd.Body, nil) {
-				b := pat.Stmt("_new = _s.slot").Match(info, cp, nil)
-				if _, isId := ast.Unparen(b["_new"].(ast.Expr)).(*ast.Ident); isId {
-					copies = append(copies, b)
+			// base resolves a pointer alias: `candidate := &topology` makes
+			// candidate.Slaves the field of topology
+			base := func(x ast.Expr, at cfgq.Point) ast.Expr {
+				x = ast.Unparen(x)
+				if st, ok := x.(*ast.StarExpr); ok {
+					x = ast.Unparen(st.X)
 				}
+				if _, isId := x.(*ast.Ident); isId {
+					r := ast.Unparen(fe.Resolve(flow.Site{G: g, At: at}, x))
+					if u, ok := r.(*ast.UnaryExpr); ok && u.Op == token.AND {
+						return ast.Unparen(u.X)
+					}
+				}
+				return x
+			}
+			isSupervisorsOwn := func(x ast.Expr) bool {
+				// the field itself, not a local that was copied from it
+				sel, ok := ast.Unparen(x).(*ast.SelectorExpr)
+				return ok && sel.Sel.Name == "slot" && core.NamedTypeName(info.TypeOf(sel.X)) == "slotSupervisor"
 			}
 			for _, p := range g.Points(func(n ast.Node) bool { return true }) {
 				core.Inspect(p.Node(), func(m ast.Node) bool {
@@ -960,48 +991,63 @@ func FreshSlaves(c *core.Ctx, rule string) {
 						return true
 					}
 					first := ast.Unparen(call.Args[0])
-					// append(copy.Slaves, ...) — directly or through a pointer to the copy: the
-					// copy's field must have been given a fresh list first
-					denotes := func(x ast.Expr, b pat.Binds, at cfgq.Point) bool {
-						x = ast.Unparen(x)
-						if pat.Same(info, x, b["_new"]) {
-							return true
+					// append(X.Slaves, ...): X's replica list grows in place. Unless it is a
+					// list made for X (a fresh slice stored in X.Slaves on every path to
+					// here), it still is the list X was copied with
+					if sel, isSel := first.(*ast.SelectorExpr); isSel && sel.Sel.Name == "Slaves" && core.NamedTypeName(info.TypeOf(sel.X)) == "SyncNode" {
+						x := base(sel.X, p)
+						if isSupervisorsOwn(x) {
+							return true // the supervisor's own list is not a new topology
 						}
-						r := ast.Unparen(fe.Resolve(flow.Site{G: g, At: at}, x))
-						if u, ok := r.(*ast.UnaryExpr); ok && u.Op == token.AND && pat.Same(info, ast.Unparen(u.X), b["_new"]) {
-							return true
-						}
-						if st, ok := r.(*ast.StarExpr); ok {
-							_ = st
-						}
-						return false
-					}
-					if sel, isSel := first.(*ast.SelectorExpr); isSel && sel.Sel.Name == "Slaves" {
-						handled := false
-						for _, b := range copies {
-							if !denotes(sel.X, b, p) {
-								continue
+						analysed++
+						isFreshReset := func(n ast.Node) bool {
+							as, ok := n.(*ast.AssignStmt)
+							if !ok || len(as.Lhs) != len(as.Rhs) {
+								return false
 							}
-							handled = true
-							analysed++
-							isFreshReset := func(n ast.Node) bool {
-								as, ok := n.(*ast.AssignStmt)
-								if !ok || len(as.Lhs) != 1 || len(as.Rhs) != 1 {
-									return false
-								}
-								ls, ok := ast.Unparen(as.Lhs[0]).(*ast.SelectorExpr)
-								pt, okp := g.Find(as)
-								if !ok || !okp || ls.Sel.Name != "Slaves" || !denotes(ls.X, b, pt) {
-									return false
-								}
-								return origin(flow.Site{G: g, At: pt}, as.Rhs[0], nil) == "fresh"
+							pt, okp := g.Find(as)
+							if !okp {
+								return false
 							}
-							okD, w := g.Dominated(p, isFreshReset)
-							c.Check(rule, fd.Name.Name+"/fresh-slaves", call.Pos(), okD, msg, w...)
+							for i, l := range as.Lhs {
+								ls, ok := ast.Unparen(l).(*ast.SelectorExpr)
+								if !ok || ls.Sel.Name != "Slaves" || !pat.Same(info, base(ls.X, pt), x) {
+									continue
+								}
+								if origin(flow.Site{G: g, At: pt}, as.Rhs[i], nil) == "fresh" {
+									return true
+								}
+							}
+							return false
 						}
-						if handled {
-							return true
+						okD, w := g.Dominated(p, isFreshReset)
+						if !okD {
+							// built from scratch: a composite literal that leaves Slaves empty or fresh
+							if id, isId := x.(*ast.Ident); isId {
+								if d := pat.DefOf(info, id); d != nil {
+									if cl, isCl := ast.Unparen(d).(*ast.CompositeLit); isCl {
+										fresh := true
+										for _, el := range cl.Elts {
+											kv, isKV := el.(*ast.KeyValueExpr)
+											if !isKV {
+												fresh = false
+												continue
+											}
+											if k, isK := kv.Key.(*ast.Ident); isK && k.Name == "Slaves" {
+												if pt, okp := g.Find(p.Node()); !okp || origin(flow.Site{G: g, At: pt}, kv.Value, nil) != "fresh" {
+													fresh = false
+												}
+											}
+										}
+										if fresh {
+											okD, w = true, nil
+										}
+									}
+								}
+							}
 						}
+						c.Check(rule, fd.Name.Name+"/fresh-slaves", call.Pos(), okD, msg, w...)
+						return true
 					}
 					// append(local, ...) feeding the new topology's Slaves
 					if id, isId := first.(*ast.Ident); isId && fe != nil {
@@ -1367,4 +1413,61 @@ func cmpHelper(c *core.Ctx, info *types.Info, call *ast.CallExpr) (token.Token, 
 		return be.Op, true
 	}
 	return 0, false
+}
+
+// ---------------------------------------------------------------------------
+// C02 / C07 / C16: scores of sorted sets are float64 values and are sent to
+// the target as text. strconv.FormatFloat(x, fmt, prec, bitSize) rounds x to
+// bitSize bits first: with a float64 argument and bitSize 32 every score that
+// needs more than about 7 significant digits is silently changed.
+
+func FormatFloatFullPrecision(c *core.Ctx, rule string, pkgs ...string) {
+	n := 0
+	for _, pp := range pkgs {
+		pk := c.Pkg(pp)
+		if pk == nil {
+			continue
+		}
+		info := pk.TypesInfo
+		for _, fn := range c.FuncsOf(pk) {
+			core.Inspect(fn.Decl.Body, func(m ast.Node) bool {
+				call, ok := m.(*ast.CallExpr)
+				if !ok || len(call.Args) != 4 {
+					return true
+				}
+				f := core.CalleeFunc(info, call)
+				if f == nil || f.Pkg() == nil || f.Pkg().Path() != "strconv" || (f.Name() != "FormatFloat" && f.Name() != "AppendFloat") {
+					return true
+				}
+				arg := call.Args[0]
+				if f.Name() == "AppendFloat" {
+					return true
+				}
+				t := info.TypeOf(ast.Unparen(arg))
+				// a conversion float64(x) of a float32 value carries only 32 bits
+				if conv, isCall := ast.Unparen(arg).(*ast.CallExpr); isCall && len(conv.Args) == 1 {
+					if tv, has := info.Types[conv.Fun]; has && tv.IsType() {
+						t = info.TypeOf(conv.Args[0])
+					}
+				}
+				b, isBasic := t.Underlying().(*types.Basic)
+				if !isBasic || b.Kind() != types.Float64 {
+					return true
+				}
+				n++
+				key := fmt.Sprintf("%s/FormatFloat#%d", fn.Obj.Name(), n)
+				bits, isC := core.IntConst(info, call.Args[3])
+				switch {
+				case !isC:
+					c.Undecidedf(rule, key, call.Pos(), "the bit size of strconv.FormatFloat is not a constant")
+				default:
+					c.Check(rule, key, call.Pos(), bits == 64, fmt.Sprintf("`%s` formats a float64 with bitSize %d: the value is rounded to %d bits first, so scores with more than about 7 significant digits reach the target changed", c.Src(call), bits, bits))
+				}
+				return true
+			})
+		}
+	}
+	if n == 0 {
+		c.Undecidedf(rule, "FormatFloat/sites", token.NoPos, "no strconv.FormatFloat of a float64 found in %v (the score conversion was confirmed there on the pinned tree)", pkgs)
+	}
 }
